@@ -89,6 +89,18 @@ Section AddPass.
     sundeclared (sc_of st' q) = if Nat.eqb q s then sundeclared sc ++ [v] else sundeclared (sc_of st q).
   Proof. rewrite ap_sc. destruct (Nat.eqb_spec q s) as [->|]; repeat split; reflexivity. Qed.
 
+  Lemma ap_args q : und_args (sc_of st' q) = und_args (sc_of st q).
+  Proof.
+    rewrite ap_sc. destruct (Nat.eqb_spec q s) as [->|]; [|reflexivity].
+    unfold und_args at 1. cbn [narguses sundeclared set_undeclared]. apply und_args_app. apply (I_marks _ _ _ _ _ I s Hs).
+  Qed.
+
+  Lemma ap_argp w : argp st' home w = argp st home w.
+  Proof. apply argp_ext; [reflexivity|apply ap_args]. Qed.
+
+  Lemma ap_uent w : uent_of st' home w = uent_of st home w.
+  Proof. apply uent_of_ext; try reflexivity. apply ap_args. Qed.
+
   Lemma InvS_add_pass : InvS st' log stk home no_extra.
   Proof.
     pose proof I as I'. dI I'.
@@ -116,6 +128,7 @@ Section AddPass.
       destruct (Nat.eqb_spec q s) as [->|]; [|apply Iunodup; exact Hq].
       apply nodup_app_last; [apply Iunodup; exact Hq|exact Hnot].
     - intros q v1 v2 Hq. destruct (ap_fields q) as (_ & _ & _ & _ & _ & ->).
+      rewrite !ap_argp.
       destruct (Nat.eqb_spec q s) as [->|]; [|apply Ipuniq; exact Hq].
       intros H1 H2 D1 D2. apply in_app_last in H1. apply in_app_last in H2.
       destruct H1 as [H1| ->]; [|contradiction]. destruct H2 as [H2| ->]; [|contradiction].
@@ -131,12 +144,14 @@ Section AddPass.
     frame_of st' home s = set_fund (frame_of st home s) (fund (frame_of st home s) ++ [uent_of st home v]).
   Proof.
     unfold frame_of, set_fund. cbn [fid fisfunc fdecl fund fnarg fnfor]. rewrite ap_sc, Nat.eqb_refl.
-    cbn [sfunc sdeclared sundeclared narguses nfordecls set_undeclared]. fold sc. rewrite map_app. reflexivity.
+    cbn [sfunc sdeclared sundeclared narguses nfordecls set_undeclared]. fold sc. rewrite map_app. cbn [map].
+    rewrite ap_uent. f_equal. f_equal. apply map_ext. intros w. apply ap_uent.
   Qed.
 
   Lemma ap_frame_other q : q <> s -> frame_of st' home q = frame_of st home q.
   Proof.
-    intros Hne. unfold frame_of. rewrite ap_sc. destruct (Nat.eqb_spec q s) as [|_]; [contradiction|]. reflexivity.
+    intros Hne. unfold frame_of. rewrite ap_sc. destruct (Nat.eqb_spec q s) as [|_]; [contradiction|]. f_equal.
+    apply map_ext. intros w. apply ap_uent.
   Qed.
 
   Lemma add_pass_all :
@@ -147,7 +162,7 @@ Section AddPass.
     (forall w, vget st' w = vget st w) /\ nvars st' = nvars st.
   Proof.
     split; [exact InvS_add_pass|]. split; [apply InvU_sset; exact U|]. split; [apply nscopes_sset|].
-    split; [exact ap_frame_s|]. split; [exact ap_frame_other|]. split; [intros w; apply lab_of_sset|].
+    split; [exact ap_frame_s|]. split; [exact ap_frame_other|]. split; [intros w; apply lab_of_sset; exact ap_args|].
     split; reflexivity.
   Qed.
 End AddPass.
@@ -169,7 +184,7 @@ Proof.
     apply in_map_iff in He. destruct He as (w & <- & Hw).
     assert (Hwv : (w < nvars st)%nat) by (apply (I_valid _ _ _ _ _ I s w Hsn); right; exact Hw).
     destruct (I_und _ _ _ _ _ I s w Hs Hw) as [Rw _].
-    unfold uent_of in Heq. destruct (Z.eqb_spec (vdecl (vget st w)) 0) as [E0|E0]; cbn in Heq; [discriminate|].
+    unfold uent_of in Heq. destruct (Z.eqb_spec (vdecl (vget st w)) 0) as [E0|E0]; [destruct (argp st home w); cbn in Heq; discriminate|]. cbn in Heq.
     apply andb_true_iff in Heq. destruct Heq as [H1 H2]. apply Z.eqb_eq in H1. apply Nat.eqb_eq in H2.
     assert (w = v).
     { apply (decl_label_inj st log stk home no_extra w v I Hwv Hv Rw Hr).
